@@ -183,6 +183,21 @@ def check_diagnostics(run, impl_exe, cli, tier, rng):
         pre = rng.choice([b'// \xe6\x97\xa5\xe6\x9c\xac\xf0\x9d\x84\x9e\n', b'\r\n\r\n', b'\t \t', b'/* c */ ', b'# x\r\n\t'])
         extra.append(pre + p)
     progs += extra
+    # end-of-file family: every truncation of a few programs rich in lexical constructs, and the same
+    # truncations followed by an ill-formed UTF-8 tail — error spans at and near the end of the file
+    # are where an off-by-one shows (library only: span bounds; the CLI renders a sample below)
+    eof_bases = [b'{ "a\\u00e9\\n": \'b\\\'\', c: @"d""e", f: |||\n  t\n|||, g: 1.5e+3 } // c\n/* d */',
+                 b'local x = "\\ud83d\\ude00\xe6\x97\xa5"; x + "\\x"',
+                 b'[1, 0.5, 1e5, 1_000, "\\t\\"", |||-\n\tq\n|||]']
+    tails = [b'', b'\\', b'\\\xff', b'\xff', b'\xe6\x97', b'\xf0\x9f', b'\\u12', b'\\ud83d', b'\\ud83d\\u']
+    eof_progs = []
+    for base in eof_bases:
+        cuts = range(1, len(base) + 1) if tier == 'thorough' else sorted(set(rng.sample(range(1, len(base) + 1), min(len(base), 40))))
+        for cut in cuts:
+            for t in (tails if tier == 'thorough' else [b''] + rng.sample(tails[1:], 3)):
+                eof_progs.append(base[:cut] + t)
+    n_cli = len(progs)
+    progs += eof_progs
     cases = []
     for i, p in enumerate(progs):
         cases.append(('d%d' % i, 'eval', ['stack=%x' % rng.choice([500, 20, 5]), hxl(list(p))], p))
@@ -222,6 +237,9 @@ def check_diagnostics(run, impl_exe, cli, tier, rng):
                               {'kind': 'diag', 'source_hex': hxl(list(src)), 'opts': fields[0]})
                 continue
             run.nontrivial.add(('diag', f[1], f[2], len(spans) > 1))
+            idx = int(cid[1:])
+            if idx >= n_cli and (idx % 7) != 0:
+                continue    # end-of-file family: the library span check above is the point; the CLI renders every 7th
             # CLI rendering, plain and coloured, with cropping
             path = os.path.join(tmp, 'prog.jsonnet')
             open(path, 'wb').write(src)
